@@ -10,7 +10,7 @@
    what isReady does (scheduler.go:379-381) and what the property's local-consistency quantifier allows. *)
 From Coq Require Import List.
 Import ListNotations.
-From BD.Sched Require Import Model Proofs ProofsFinal Examples.
+From BD.Sched Require Import Model Proofs ProofsFinal Examples ProofsDown.
 
 (* For every configuration and every execution that reaches Done without stop request or timeout (quiet), for every
    step i, with  blocked i := some dependency ended failed without continueOn.failure, canceled, or skipped without
@@ -44,6 +44,16 @@ Theorem C02_unaffected_run : forall c : cfg, norepeat c ->
 Proof. exact unaffected_run. Qed.
 Print Assumptions C02_unaffected_run.
 
+(* Transitive form of "every step downstream of ...": a step reached along dependency edges from a blocking dependency
+   (failed without continueOn.failure, canceled, or skipped without continueOn.skipped), through intermediate steps that
+   do not carry continueOn.skipped, has not been executed at all and ends canceled or skipped - for paths of any length.
+   tdown c s i := some dependency of i is blocking, or some dependency d of i is itself tdown and has no continueOn.skipped. *)
+Theorem C02_transitive_downstream : forall c : cfg, norepeat c ->
+  forall s, Reach c s -> quiet s -> pc s = LDone -> forall i, tdown c s i ->
+  att (nd s i) = 0 /\ (st (nd s i) = NCancel \/ st (nd s i) = NSkipped).
+Proof. exact transitive_downstream. Qed.
+Print Assumptions C02_transitive_downstream.
+
 (* Non-vacuity.  (1) A run with every kind of outcome reaches Done quietly: a fails twice (limit 1) and blocks b
    (canceled); c's precondition is unmet (skipped) and without continueOn.skipped makes d skipped; e finishes.
    (2) The diamond run with one retry finishes everywhere.  Both satisfy every premise of the theorems. *)
@@ -56,3 +66,11 @@ Example C02_nonvacuous :
      map (runnable mixed s) [0; 1; 2; 3; 4] = [true; false; false; false; true] /\
      lasterr s = true).
 Proof. exact (conj mixed_ok mixed_done). Qed.
+
+(* (3) a -> b -> c with a failing: c is downstream of a through two edges; premises of C02_transitive_downstream hold. *)
+Example C02_transitive_nonvacuous :
+  norepeat chain3 /\
+  exists s, run chain3 (init chain3) chain3_full = Some s /\ pc s = LDone /\ quiet s /\
+    tdown chain3 s 2 /\ blocked chain3 s 2 = true /\ dep_mark chain3 s 0 = Some NCancel /\
+    map (fun i => (st (nd s i), att (nd s i))) [0; 1; 2] = [(NError, 1); (NCancel, 0); (NCancel, 0)].
+Proof. exact chain3_down. Qed.
